@@ -4,6 +4,7 @@ mode x transport, with a multi-byte text whose characters are cut by the read
 boundaries.  The log objects record every write()/flush() with type and global
 order."""
 import codecs
+import errno
 import itertools
 import os
 import termios
@@ -29,11 +30,15 @@ SUBSETS = [s for n in (1, 2, 3) for s in itertools.combinations(('logfile', 'log
 
 
 class Rec(object):
-    def __init__(self, name, events):
+    def __init__(self, name, events, fault=None):
         self.name = name
         self.events = events
+        self.fault = fault          # shared one-shot switch: the next write to any log file fails (disk full)
 
     def write(self, s):
+        if self.fault is not None and self.fault[0]:
+            self.fault[0] = False
+            raise OSError(errno.ENOSPC, 'No space left on device')
         self.events.append((self.name, 'w', s))
 
     def flush(self):
@@ -65,7 +70,8 @@ def menu(tr, aio=False):
     if aio:
         # awaited reads on the real (controlled) event loop; a poll (timeout 0) makes data arrive while its timeout fires
         return ['aexpect_ok', 'aexpect_no', 'aexpect_poll', 'expect_ok', 'send', 'sendcontrol']
-    ops = ['expect_ok', 'expect_no', 'rnb', 'send', 'sendline']
+    # send_fault: one log write fails during a send (the caller sees the error); every later record must still be logged
+    ops = ['expect_ok', 'expect_no', 'rnb', 'send', 'sendline', 'send_fault']
     if tr.startswith('pty'):
         ops += ['sendcontrol', 'sendeof', 'sendintr']
     return ops
@@ -92,8 +98,10 @@ def run_seq(task, seq):
             env.eager_reader = True
             sp.delayafterread = 0.01
         events = []
+        fault = [False]
+        mark = 0
         for name in task['subset']:
-            setattr(sp, name, Rec(name, events))
+            setattr(sp, name, Rec(name, events, fault))
         S = (lambda s: s.encode('utf-8')) if enc is None else (lambda s: s)
         dec = codecs.getincrementaldecoder(enc)() if enc else None
         ci = 0
@@ -140,6 +148,17 @@ def run_seq(task, seq):
                                 break
                         except TIMEOUT:
                             break
+            elif op == 'send_fault':
+                fault[0] = True
+                try:
+                    sp.send(S('F!'))
+                except OSError as e:
+                    if e.errno != errno.ENOSPC:
+                        raise
+                fault[0] = False
+                # what the logs hold of the record that met the fault is not defined; from here on they are exact again
+                mark = len(events)
+                want_read = want_send = want_all = S('')
             else:
                 if op == 'send':
                     arg = S('p\xe9q')
@@ -165,7 +184,7 @@ def run_seq(task, seq):
         for name in ('logfile', 'logfile_read', 'logfile_send'):
             got[name] = S('')
         last = {}
-        for (name, kind, s) in events:
+        for (name, kind, s) in events[mark:]:
             if kind == 'w':
                 if last.get(name) == 'w':
                     viol = viol or ('no-flush', '%s: two writes without a flush in between' % name)
